@@ -260,63 +260,74 @@ Proof. vm_compute. reflexivity. Qed.
 (* Extension 2: the IGS tokenizer (Model/IgsTok.v: print_char, get_next_action, Loop::next_step) for EVERY executor and
    fallback parser, and Extension 3: the IGS pixel kernel (Model/IgsKernel.v).                                          *)
 
-(* print_char: from every parser state satisfying IgsInv (the loop-header shape: parsed_numbers has 4 entries while the loop
-   command letter is read, 5 from the parameter count on, parsed_numbers[3] (the delay) is 0, loop_parameters and its last
-   group are non-empty while parameters are read; a running loop has at least one parameter group and delay 0), every
-   character, every executor, every fallback parser: the call returns with IgsInv again, or it panics in the i32 arithmetic of
-   Loop::next_step — the ONE known class (igs-panic:next_step).  In particular parsed_numbers[0..=4],
-   loop_parameters.last_mut().unwrap(), `% parameters.len()`, parameters[cur_parameter] are never out of range and the
-   thread::sleep(200 ms * delay) of next_step never sleeps. *)
+(* print_char: from every parser state satisfying IgsInvN = IgsInv (the loop-header shape: parsed_numbers has 4 entries while the
+   loop command letter is read, 5 from the parameter count on, parsed_numbers[3] (the delay) is 0, loop_parameters and its last
+   group are non-empty while parameters are read; a running loop is LoopOk: at least one parameter group, delay 0, step >= 1,
+   header numbers from the tokenizer, the counter on the `from` side) and NumsOk (every accumulated number lies in
+   0 ..= i32::MAX - 48), every character, every executor, every fallback parser: the call RETURNS with IgsInvN again.  No panic
+   site is left: parsed_numbers[0..=4], loop_parameters.last_mut().unwrap(), `% parameters.len()`, parameters[cur_parameter] are
+   never out of range, the thread::sleep(200 ms * delay) of next_step never sleeps, and (since the fix commits: Loop::new rejects
+   step <= 0, next_step saturates `i += step` and the +n / -n / !n arithmetic) the i32 arithmetic of Loop::next_step never
+   overflows. *)
 Theorem igs_tokenizer_safe : forall (X : Type) (exec : X -> N -> list Z -> str -> X * bool) (FS : Type) (fb_print : FS -> N -> FS * bool)
-  (w : iworld X FS) (ch : N), IgsInv (w_p X FS w) ->
+  (w : iworld X FS) (ch : N), IgsInvN (w_p X FS w) ->
   match igs_step X exec FS fb_print w ch with
-  | Ok (w', _) => IgsInv (w_p X FS w')
-  | Panic s => s = SITE_IGS_LOOP_ARITH
+  | Ok (w', _) => IgsInvN (w_p X FS w')
+  | Panic _ => False
   end.
-Proof. exact igs_step_post. Qed.
+Proof. exact (fun X exec FS fb_print w ch => igs_event_post X exec FS fb_print w (EChar ch)). Qed.
 
-Theorem igs_next_action_safe : forall (X : Type) (exec : X -> N -> list Z -> str -> X * bool) (FS : Type) (w : iworld X FS),
-  IgsInv (w_p X FS w) ->
+Theorem igs_next_action_safe : forall (X : Type) (exec : X -> N -> list Z -> str -> X * bool) (FS : Type) (fb_print : FS -> N -> FS * bool) (w : iworld X FS),
+  IgsInvN (w_p X FS w) ->
   match igs_next_action X exec FS w with
-  | Ok (w', _) => IgsInv (w_p X FS w')
-  | Panic s => s = SITE_IGS_LOOP_ARITH
+  | Ok (w', _) => IgsInvN (w_p X FS w')
+  | Panic _ => False
   end.
-Proof. exact igs_next_action_post. Qed.
+Proof. exact (fun X exec FS fb_print w => igs_event_post X exec FS fb_print w ENext). Qed.
 
 (* every interleaving of characters and get_next_action calls, from the fresh parser *)
 Theorem igs_stream_safe : forall (X : Type) (exec : X -> N -> list Z -> str -> X * bool) (FS : Type) (fb_print : FS -> N -> FS * bool)
   (x : X) (fs : FS) (es : list event),
   match igs_run X exec FS fb_print {| w_p := ipars_new; w_x := x; w_fb := fs |} es with
-  | Ok w' => IgsInv (w_p X FS w')
-  | Panic s => s = SITE_IGS_LOOP_ARITH
+  | Ok w' => IgsInvN (w_p X FS w')
+  | Panic _ => False
   end.
-Proof. intros. apply igs_run_post. exact ipars_new_inv. Qed.
+Proof. intros. apply igs_run_post. exact ipars_new_invN. Qed.
 
-(* outside the known class: a loop whose header (from, to, step) and parameter values are at most 10^9 never panics, and stays
-   such a loop *)
-Theorem igs_loop_step_safe : forall (X : Type) (exec : X -> N -> list Z -> str -> X * bool) (x : X) (l : iloop), LoopOk l -> LoopSmall l ->
+(* one loop step: never a panic, whatever the header numbers and the parameter values (str::parse::<i32> accepts the whole i32
+   range; the step saturates at 2147483599), and the loop stays LoopOk *)
+Theorem igs_loop_step_safe : forall (X : Type) (exec : X -> N -> list Z -> str -> X * bool) (x : X) (l : iloop), LoopOk l ->
   match next_step X exec x l with
-  | Ok (Some (_, l', _)) => LoopOk l' /\ LoopSmall l'
+  | Ok (Some (_, l', _)) => LoopOk l'
   | Ok None => True
   | Panic _ => False
   end.
-Proof. exact next_step_small. Qed.
+Proof. exact next_step_post. Qed.
 
-(* stall side: with step >= 1 every executed step brings the loop counter at least `step` closer to its end (so a loop runs at
-   most |to - from| steps); with step = 0 the loop state does not change: get_next_action never returns None again *)
+(* stall side: EVERY executed step of a LoopOk loop (so: every loop the parser runs) brings the counter at least one closer to
+   `to` — exactly `step` closer unless the counter saturates, and then the loop is over —; a loop runs at most |to - from| steps,
+   then get_next_action answers None *)
 Theorem igs_loop_progress : forall (X : Type) (exec : X -> N -> list Z -> str -> X * bool) x l x' l' ok,
-  next_step X exec x l = Ok (Some (x', l', ok)) -> 1 <= l_step l ->
-  0 < loop_measure l /\ loop_measure l' <= loop_measure l - l_step l /\ l_from l' = l_from l /\ l_to l' = l_to l /\ l_step l' = l_step l.
+  LoopOk l -> next_step X exec x l = Ok (Some (x', l', ok)) ->
+  0 < loop_measure l /\ loop_measure l' <= loop_measure l - 1 /\ (loop_measure l' = loop_measure l - l_step l \/ loop_measure l' <= 0) /\
+  l_from l' = l_from l /\ l_to l' = l_to l /\ l_step l' = l_step l.
 Proof. exact next_step_progress. Qed.
 
-Theorem igs_loop_step0_stuck : forall (X : Type) (exec : X -> N -> list Z -> str -> X * bool) x l x' l' ok,
-  next_step X exec x l = Ok (Some (x', l', ok)) -> l_step l = 0 -> l' = l.
+Theorem igs_loop_terminates : forall (X : Type) (exec : X -> N -> list Z -> str -> X * bool) (n : nat) x l,
+  LoopOk l -> loop_measure l <= Z.of_nat n -> exists k, (k <= n)%nat /\ LoopEnds X exec k x l.
+Proof. exact loop_ends. Qed.
+
+(* the OLD behaviour (what Loop::new now rejects): with step = 0 a step leaves the loop state as it is, so get_next_action
+   answered Some for ever *)
+Theorem igs_loop_step0_stuck_before_fix : forall (X : Type) (exec : X -> N -> list Z -> str -> X * bool) x l x' l' ok,
+  I32_MIN <= l_i l <= I32_MAX -> next_step X exec x l = Ok (Some (x', l', ok)) -> l_step l = 0 -> l' = l.
 Proof. exact next_step_stuck. Qed.
 
-(* an invariant of the executor is an invariant of the parser: the tokenizer only ever hands the executor state to exec *)
+(* an invariant of the executor is an invariant of the parser: the tokenizer only ever hands the executor state to exec, and only
+   with i32 parameter values (tokenizer numbers; loop parameter values) *)
 Theorem igs_executor_invariant : forall (X : Type) (exec : X -> N -> list Z -> str -> X * bool) (FS : Type) (fb_print : FS -> N -> FS * bool)
-  (Q : X -> Prop), (forall x c ps s, Q x -> Q (fst (exec x c ps s))) ->
-  forall es w, Q (w_x X FS w) -> match igs_run X exec FS fb_print w es with Ok w' => Q (w_x X FS w') | Panic _ => True end.
+  (Q : X -> Prop), (forall x c ps s, Forall InI32 ps -> Q x -> Q (fst (exec x c ps s))) ->
+  forall es w, NumsOk (w_p X FS w) -> Q (w_x X FS w) -> match igs_run X exec FS fb_print w es with Ok w' => Q (w_x X FS w') | Panic _ => True end.
 Proof. exact igs_run_Q. Qed.
 
 (* ---- IGS pixel kernel: ALL coordinates, ALL parameter values ---- *)
@@ -342,16 +353,16 @@ Theorem igs_kernel_safe : forall e c ps s, InvE e ->
 Proof. exact igs_exec_ok. Qed.
 
 (* the whole IGS parser over the modelled executor, every interleaving of characters and get_next_action calls, every fallback
-   parser: no panic except the known loop arithmetic; the executor never panics; the picture is width x height x 4 bytes *)
+   parser: no panic; the executor never panics; the picture is width x height x 4 bytes *)
 Theorem igs_stream_kernel_safe : forall (FS : Type) (fb_print : FS -> N -> FS * bool) (fs : FS) (es : list event),
   match igs_run xstate igs_x FS fb_print (igs_world_init FS fs) es with
-  | Ok w' => IgsInv (w_p xstate FS w') /\
+  | Ok w' => IgsInvN (w_p xstate FS w') /\
              match w_x xstate FS w' with
              | SOkE e => InvE e /\ exists px, igs_picture e = Ok px /\ Z.of_nat (length px) = 4 * (e_w e * e_h e)
              | SPanicE _ => False
              | SUnmodelledE => True
              end
-  | Panic s => s = SITE_IGS_LOOP_ARITH
+  | Panic _ => False
   end.
 Proof. exact igs_stream_kernel_lemma. Qed.
 
@@ -360,24 +371,47 @@ Definition ex0 (u : unit) (_ : N) (_ : list Z) (_ : str) : unit * bool := (u, tr
 Definition igs_chars (cs : list N) : list event := map EChar cs.
 Definition igs_run0 (es : list event) := igs_run unit ex0 unit fb0 {| w_p := ipars_new; w_x := tt; w_fb := tt |} es.
 
-(* KNOWN igs-panic:next_step — "G#&100,200,2147483647,0,L,4,0,0,1,1:" : the step saturates at 2147483599 and `i += step` overflows *)
-Example igs_loop_arith_witness :
-  igs_run0 (igs_chars [71; 35; 38; 49; 48; 48; 44; 50; 48; 48; 44; 50; 49; 52; 55; 52; 56; 51; 54; 52; 55; 44; 48; 44; 76; 44; 52; 44; 48; 44; 48; 44; 49; 44; 49; 58]%N)
-  = Panic SITE_IGS_LOOP_ARITH.
-Proof. vm_compute. reflexivity. Qed.
-
-(* KNOWN igs-panic:next_step — "G#&1,3,1,0,L,4,+2147483647,0,0,0:" : `value += x` *)
-Example igs_loop_value_witness :
-  igs_run0 (igs_chars [71; 35; 38; 49; 44; 51; 44; 49; 44; 48; 44; 76; 44; 52; 44; 43; 50; 49; 52; 55; 52; 56; 51; 54; 52; 55; 44; 48; 44; 48; 44; 48; 58]%N)
-  = Panic SITE_IGS_LOOP_ARITH.
-Proof. vm_compute. reflexivity. Qed.
-
-(* KNOWN igs-loop-endless — "G#&0,3,0,0,L,4,0,0,1,1:" then 100 get_next_action calls: the loop is still there, unchanged *)
-Example igs_loop_step0_witness :
-  match igs_run0 (igs_chars [71; 35; 38; 48; 44; 51; 44; 48; 44; 48; 44; 76; 44; 52; 44; 48; 44; 48; 44; 49; 44; 49; 58]%N ++ repeat ENext 100) with
-  | Ok w => match i_loop (w_p unit unit w) with Some l => l_i l = 0 /\ l_step l = 0 /\ loop_running l = true | None => False end
+(* FIXED igs-panic:next_step — "G#&100,200,2147483647,0,L,4,0,0,1,1:" : the step saturates at 2147483599; `i += step` used to overflow,
+   now the counter saturates and the loop is over after its first step *)
+Definition stream_loop_bigstep : list N :=
+  [71; 35; 38; 49; 48; 48; 44; 50; 48; 48; 44; 50; 49; 52; 55; 52; 56; 51; 54; 52; 55; 44; 48; 44; 76; 44; 52; 44; 48; 44; 48; 44; 49; 44; 49; 58]%N.
+Example igs_loop_arith_fixed :
+  match igs_run0 (igs_chars stream_loop_bigstep ++ [ENext]) with
+  | Ok w => i_loop (w_p unit unit w) = None
   | Panic _ => False
   end.
+Proof. vm_compute. reflexivity. Qed.
+(* the old expressions on that loop: i + step, and value + x of "G#&1,3,1,0,L,4,+2147483647,0,0,0:" *)
+Example igs_loop_arith_before_fix_refuted :
+  chkl (100 + parse_next_number 214748364 55) = Panic SITE_IGS_LOOP_ARITH /\ chkl (2147483647 + Z.abs 1) = Panic SITE_IGS_LOOP_ARITH /\
+  sat (100 + parse_next_number 214748364 55) = I32_MAX /\ sat (2147483647 + Z.abs 1) = I32_MAX.
+Proof. vm_compute. auto. Qed.
+
+(* FIXED igs-panic:next_step — "G#&1,3,1,0,L,4,+2147483647,0,0,0:" : `value += x` saturates; the loop runs its two steps and ends *)
+Example igs_loop_value_fixed :
+  match igs_run0 (igs_chars [71; 35; 38; 49; 44; 51; 44; 49; 44; 48; 44; 76; 44; 52; 44; 43; 50; 49; 52; 55; 52; 56; 51; 54; 52; 55; 44; 48; 44; 48; 44; 48; 58]%N ++ [ENext; ENext]) with
+  | Ok w => i_loop (w_p unit unit w) = None
+  | Panic _ => False
+  end.
+Proof. vm_compute. reflexivity. Qed.
+
+(* FIXED igs-loop-endless — "G#&0,3,0,0,L,4,0,0,1,1:" : Loop::new answers Err (the only error of the stream), no loop is pending *)
+Definition stream_loop_step0 : list N := [71; 35; 38; 48; 44; 51; 44; 48; 44; 48; 44; 76; 44; 52; 44; 48; 44; 48; 44; 49; 44; 49; 58]%N.
+Example igs_loop_step0_rejected :
+  match igs_run0 (igs_chars stream_loop_step0) with
+  | Ok w => i_loop (w_p unit unit w) = None /\ i_state (w_p unit unit w) = IReadCommandStart
+  | Panic _ => False
+  end /\
+  match igs_step unit ex0 unit fb0 (match igs_run0 (igs_chars (removelast stream_loop_step0)) with Ok w => w | Panic _ => {| w_p := ipars_new; w_x := tt; w_fb := tt |} end) 58%N with
+  | Ok (_, ok) => ok = false
+  | Panic _ => False
+  end.
+Proof. vm_compute. auto. Qed.
+(* the old behaviour on that header: a loop record with step 0 is still there, unchanged, after 100 steps *)
+Definition loop_step0 : iloop := {| l_i := 0; l_from := 0; l_to := 3; l_step := 0; l_delay := 0; l_cmd := 76%N; l_str := []; l_params := [[[48%N]; [48%N]; [49%N]; [49%N]]] |}.
+Fixpoint steps0 (n : nat) (l : iloop) : option iloop :=
+  match n with O => Some l | S n' => match next_step unit ex0 tt l with Ok (Some (_, l', _)) => steps0 n' l' | _ => None end end.
+Example igs_loop_step0_before_fix_witness : steps0 100 loop_step0 = Some loop_step0 /\ loop_running loop_step0 = true.
 Proof. vm_compute. auto. Qed.
 
 (* a loop that draws: "G#&0,3,1,0,Z,4,x,0,x,5:" runs its first step inside print_char and two more on get_next_action *)
@@ -397,52 +431,75 @@ Example igs_nums4_panics : idx SITE_IGS_NUMS [0; 3; 1; 0] 4 = Panic SITE_IGS_NUM
 Proof. reflexivity. Qed.
 
 (* ================================================================================================================= *)
-(* Extension 3b: IGS draw_line (Model/IgsLine.v), an UNCLIPPED Bresenham, and the commands DrawLine, LineDrawTo,
-   LineMarkerTypes.                                                                                                   *)
+(* Extension 3b: IGS draw_line (Model/IgsLine.v): since the fix commits the line is CLIPPED to the screen (clip_line) before the
+   Bresenham loop; commands DrawLine, LineDrawTo, LineMarkerTypes.                                                      *)
 
-(* draw_line for ALL arguments: it ends at (x1, y1) — the model's fuel dx + dy + 1 always suffices — after at least
-   max(dx, dy) + 1 loop iterations (one set_pixel slot each), whatever part of the line is on the screen: the work is
-   proportional to the COORDINATES, not to the canvas (known finding igs-timeout:L); the only panics are LINE_STYLE[6]
-   (LineType::UserDefined) and an i32 overflow that needs an end point beyond +-2^27 (known finding igs-panic:draw_line) *)
-Theorem igs_draw_line_total : forall e x0 y0 x1 y1 color mask, InvE e -> (color < 16)%N ->
-  match igs_draw_line e x0 y0 x1 y1 color mask with
+(* clip_line for ALL i32 arguments: no i128 overflow, no division by zero; what it returns lies on the screen *)
+Theorem igs_clip_line_safe : forall x0 y0 x1 y1 x_max y_max, InI32 x0 -> InI32 y0 -> InI32 x1 -> InI32 y1 -> 0 <= x_max <= I32_MAX -> 0 <= y_max <= I32_MAX ->
+  match clip_line x0 y0 x1 y1 x_max y_max with
+  | Ok None => True
+  | Ok (Some (a, b, c, d)) => 0 <= a <= x_max /\ 0 <= b <= y_max /\ 0 <= c <= x_max /\ 0 <= d <= y_max
+  | Panic _ => False
+  end.
+Proof. exact clip_line_post. Qed.
+
+(* draw_line for ALL i32 arguments and every line type: it returns, the canvas keeps its size and its pens, and the loop runs at
+   most width + height - 1 times (one set_pixel slot each): the work is bounded by the CANVAS, not by the coordinates; no panic *)
+Theorem igs_draw_line_total : forall e x0 y0 x1 y1 color mask, InvE e -> (color < 16)%N -> InI32 x0 -> InI32 y0 -> InI32 x1 -> InI32 y1 ->
+  exists e' n, igs_draw_line e x0 y0 x1 y1 color mask = Ok (e', n) /\ SameE e e' /\ 0 <= n <= e_w e + e_h e - 1.
+Proof. exact igs_draw_line_post. Qed.
+
+(* the OLD behaviour (draw_line before the fix commits = igs_draw_line_unclipped), for ALL arguments: at least max(dx, dy) + 1 loop
+   iterations whatever part of the line is on the screen, and the two panics LINE_STYLE[6] / i32 overflow beyond +-2^27 *)
+Theorem igs_draw_line_before_fix : forall e x0 y0 x1 y1 color mask, InvE e -> (color < 16)%N ->
+  match igs_draw_line_unclipped e x0 y0 x1 y1 color mask with
   | Ok (e', n) => SameE e e' /\ Z.max (Z.abs (x0 - x1)) (Z.abs (y0 - y1)) + 1 <= n <= Z.abs (x0 - x1) + Z.abs (y0 - y1) + 1
   | Panic p => (p = SITE_IGS_LINESTYLE /\ ~ (0 <= mask <= 5)) \/ (p = SITE_I32 /\ ~ DlSmall x0 y0 x1 y1)
   end.
-Proof. exact igs_draw_line_post. Qed.
+Proof. exact igs_draw_line_unclipped_post. Qed.
 
-(* KNOWN igs-timeout:L as a theorem: on the 320 x 200 canvas a horizontal line to x = D costs at least D + 1 iterations, for every D up to 2^27 *)
-Theorem igs_draw_line_stall_witness : forall D, 0 <= D <= DLH ->
-  exists e' n, igs_draw_line iexec_new 0 0 D 0 0%N 0 = Ok (e', n) /\ D + 1 <= n.
-Proof. exact igs_draw_line_stall. Qed.
+(* the old stall as a theorem: on the 320 x 200 canvas a horizontal line to x = D cost at least D + 1 iterations, for every D up to 2^27 *)
+Theorem igs_draw_line_before_fix_stall : forall D, 0 <= D <= DLH ->
+  exists e' n, igs_draw_line_unclipped iexec_new 0 0 D 0 0%N 0 = Ok (e', n) /\ D + 1 <= n.
+Proof. exact igs_draw_line_unclipped_stall. Qed.
 
-Theorem igs_kernel2_safe : forall s c ps str_, InvE2 s ->
+Theorem igs_kernel2_safe : forall s c ps str_, InvE2 s -> Forall InI32 ps ->
   match igs_exec2 s c ps str_ with
   | XOk2 s' _ => InvE2 s'
-  | XPanic2 p => ((c = 76 \/ c = 68)%N) /\
-                 ((p = SITE_IGS_LINESTYLE /\ x_line_type s = 6) \/
-                  (p = SITE_I32 /\ ~ (Forall (fun v => Z.abs v <= DLH) ps /\ Z.abs (x_cur_x s) <= DLH /\ Z.abs (x_cur_y s) <= DLH)))
+  | XPanic2 _ => False
   | XUnmodelled2 => True
   end.
 Proof. exact igs_exec2_ok. Qed.
 
 Theorem igs_stream_kernel2_safe : forall (FS : Type) (fb_print : FS -> N -> FS * bool) (fs : FS) (es : list event),
   match igs_run xstate2 igs_x2 FS fb_print (igs_world_init2 FS fs) es with
-  | Ok w' => IgsInv (w_p xstate2 FS w') /\
+  | Ok w' => IgsInvN (w_p xstate2 FS w') /\
              match w_x xstate2 FS w' with
              | SOkE2 s => InvE2 s /\ exists px, igs_picture (x_e s) = Ok px /\ Z.of_nat (length px) = 4 * (e_w (x_e s) * e_h (x_e s))
-             | SPanicE2 p => p = SITE_IGS_LINESTYLE \/ p = SITE_I32
+             | SPanicE2 _ => False
              | SUnmodelledE2 => True
              end
-  | Panic s => s = SITE_IGS_LOOP_ARITH
+  | Panic _ => False
   end.
 Proof. exact igs_stream_kernel2_lemma. Qed.
 
-(* "G#L 0,0,4,2:" : five loop iterations; "G#T 2,7,1:L 0,0,5,5:" : the user-defined line type indexes LINE_STYLE[6] *)
+(* "G#L 0,0,4,2:" : five loop iterations; "G#L 0,0,1000000000,0:" : 320 iterations (it was 10^9 + 1);
+   "G#T 2,7,1:L 0,0,5,5:" : the user defined line type is drawn solid (it was LINE_STYLE[6]) *)
 Example igs_line_draws : match igs_draw_line iexec_new 0 0 4 2 3%N 0 with
                          | Ok (e', n) => n = 5 /\ map (fun i => nth_error (e_screen e') i) [0; 1; 321; 322; 323; 643; 644]%nat
                                                   = [Some 3; Some 3; Some 1; Some 3; Some 3; Some 1; Some 3]%N
                          | Panic _ => False end.
 Proof. vm_compute. auto. Qed.
-Example igs_user_line_type_panics : exists n, igs_draw_line iexec_new 0 0 5 5 0%N 6 = Panic n /\ n = SITE_IGS_LINESTYLE.
-Proof. eexists. split; reflexivity. Qed.
+Example igs_far_line_is_clipped : match igs_draw_line iexec_new 0 0 1000000000 0 3%N 0 with
+                                  | Ok (e', n) => n = 320 /\ nth_error (e_screen e') 319 = Some 3%N /\ nth_error (e_screen e') 320 = Some 1%N
+                                  | Panic _ => False end.
+Proof. vm_compute. auto. Qed.
+Example igs_clip_examples : clip_line (-10) (-10) 700 500 319 199 = Ok (Some (4, 0, 281, 199)) /\ clip_line (-10) 50 (-1) 60 319 199 = Ok None /\
+                            clip_line 2147483647 (-2147483648) (-2147483648) 2147483647 639 399 = Ok None /\
+                            clip_line (-2147483648) (-2147483648) 2147483647 2147483647 639 399 = Ok (Some (0, 0, 399, 399)).
+Proof. vm_compute. auto. Qed.
+Example igs_user_line_type_solid : match igs_draw_line iexec_new 0 0 5 5 2%N 6 with
+                                   | Ok (e', n) => n = 6 /\ nth_error (e_screen e') 963 = Some 2%N
+                                   | Panic _ => False end /\
+                                   igs_draw_line_unclipped iexec_new 0 0 5 5 0%N 6 = Panic SITE_IGS_LINESTYLE.
+Proof. vm_compute. auto. Qed.
